@@ -132,6 +132,14 @@ mut("c20_drop_tags_swapped", "C20", "crash|premature_free|double_free|leak|panic
  (TZ, "                    unsafe {\n                        Arc::decrement_strong_count(ptr.cast::<TzifOwned>());\n                    }",
       "                    unsafe {\n                        Arc::decrement_strong_count(\n                            ptr.cast::<PosixTimeZoneOwned>(),\n                        );\n                    }"),
 ])
+mut("c20_global_get_bitwise_copy", "C20", "premature_free|crash|use_after_free|double_free", [(TZ,
+ "        crate::tz::db().get(time_zone_name)\n    }",
+ "        let tz = crate::tz::db().get(time_zone_name)?;\n        // SAFETY: (mutant) wrong: `tz` is dropped right after.\n        Ok(unsafe { tz.copy() })\n    }")])
+# A lock acquisition that no acquire_* call announces, taken while the same
+# thread still holds a read guard of the same lock (recursive read).
+mut("c19_zi_recursive_read_unannounced", "C19", "deadlock", [(ZI,
+ "            if let Some(zone_info_name) = inner.get(query) {\n                return Some(zone_info_name);\n            }\n            drop(inner); // unlock",
+ "            if let Some(zone_info_name) = inner.get(query) {\n                return Some(zone_info_name);\n            }\n            if !self.inner.read().unwrap().expiration.is_expired() {\n                return None;\n            }\n            drop(inner); // unlock")])
 
 def main():
     os.chdir("/repo")
